@@ -41,3 +41,10 @@ def nontrivial(case, inp, obs):
 
 
 PARTS = [Part("window", "c05", "keyassign", gen, nontrivial=nontrivial, describe=describe)]
+
+# ---- composed model (Model/SlashKeys.v = KeyAssign x Slash): theorems in Props/C06System.v, part "system" in harness/c06sys/part.py
+EXTRA_PROPS = ["C06System"]
+import importlib.util as _ilu, os as _os
+_spec = _ilu.spec_from_file_location("c06sys_part", _os.path.join(_os.path.dirname(_os.path.abspath(__file__)), "..", "..", "harness", "c06sys", "part.py"))
+_c06sys = _ilu.module_from_spec(_spec); _spec.loader.exec_module(_c06sys)
+PARTS.append(_c06sys.PART)
